@@ -30,7 +30,7 @@ CLAUSE_PROP = {
     # C13 / C14
     "c13_plan_and_registry_unchanged": "C13",
     "c14_nothing_executes_in_dry_run": "C14", "c14_dry_plan_ops": "C14", "c14_dry_plan_order": "C14",
-    "c14_dry_is_dry": "C14", "c14_dry_plan_transformed": "C14", "c14_dry_run_executed_nothing": "C14", "c14_dry_run_left_stores": "C14",
+    "c14_dry_is_dry": "C14", "c14_dry_plan_transformed": "C14", "c14_output_node_in_returned_plan": "C14", "c14_dry_run_executed_nothing": "C14", "c14_dry_run_left_stores": "C14",
     # engine-level consequences seen from here
     "end_nothing_running": "C07", "too_many_inflight": "C10", "threads_leaked": "C07",
     "too_many_mtime_queries_inflight": "C10", "attempts_exceed_retry": "C10", "eventual_success_not_honoured": "C10",
@@ -112,11 +112,13 @@ def mc_scenarios(tier, seed, n_quick=14, n_thorough=120):
         {"N": 4, "kind": ["call"] * 4, "args": [[], [1], [], [3]], "deps": [[], [], [2], []], "reg": ["src", "none", "src", "stored"],
          "wof": [0, 0, 2, 0], "side": [0, 3, 0, 0], "nkw": [0] * 4, "norm": False},
     ]
+    fixed.append({"N": 3, "kind": ["call"] * 3, "args": [[], [1], []], "deps": [[], [], [2]], "reg": ["src", "stored", "src"],
+                  "wof": [0, 0, 2], "side": [0, 3, 0], "nkw": [0, 0, 0], "norm": False, "consistent": False})   # the producer of a dependent source is itself stored
     k = n_quick if tier == "quick" else n_thorough
     scns = pool[:k]
     for s in scns:
         s["norm"] = rng.random() < 0.5
-    return fixed[: (1 if tier == "quick" else 3)], scns
+    return ([fixed[0], fixed[3]] if tier == "quick" else fixed), scns
 
 
 # --------------------------------------------------------------------------------------
